@@ -233,12 +233,13 @@ Proof. split; [exact civil_epoch|]. split; [exact civil_valid | exact civil_succ
 Lemma next_day_inj a b : valid_date a -> valid_date b -> next_day a = next_day b -> a = b.
 Proof.
   destruct a as [[y m] d], b as [[y' m'] d']. unfold valid_date, next_day. intros Ha Hb.
-  pose proof (dim_bounds y m). pose proof (dim_bounds y' m').
+  pose proof (dim_bounds y m) as B1. pose proof (dim_bounds y' m') as B2.
+  assert (K : forall a1 a2 a3 b1 b2 b3 : Z, (a1, a2, a3) = (b1, b2, b3) -> a1 = b1 /\ a2 = b2 /\ a3 = b3).
+  { intros * E. inversion E. auto. }
   destruct (d <? dim y m) eqn:E1, (d' <? dim y' m') eqn:E2;
-    try destruct (m <? 12) eqn:E3; try destruct (m' <? 12) eqn:E4; intros Heq; inversion Heq; subst;
-    try lia; try reflexivity.
-  - assert (m = m') by lia. subst. assert (d = d') by lia. subst. reflexivity.
-  - assert (y = y') by lia. assert (m = m') by lia. subst. assert (d = d') by lia. subst. reflexivity.
+    try destruct (m <? 12) eqn:E3; try destruct (m' <? 12) eqn:E4; intros Heq; apply K in Heq;
+    destruct Heq as (Q1 & Q2 & Q3); try lia;
+    (assert (y = y') by lia; assert (m = m') by lia; subst y' m'; f_equal; lia).
 Qed.
 
 (* there is exactly one day numbering of the calendar *)
